@@ -6,6 +6,7 @@ MCNext == TLCGet("level") = 1 /\
   \/ \E i \in 1..Len(DDims), n \in MCExps : DimPow(i, n) \/ DimRoot(i, n)
   \/ \E i \in 1..Len(DPrefixes), j \in 1..Len(DPrefixes), op \in {"pmul", "pdiv"} : PreBin(op, i, j)
   \/ \E i \in 1..Len(DPrefixes), n \in MCExps : PrePow(i, n) \/ PreRoot(i, n)
+  \/ \E i \in 1..Len(DPrefixes), j \in 1..Len(DPrefixes), op \in {"pmul", "pdiv"}, n \in {-3, -1, 2, 3} : PreBinPow(op, i, j, n)
 ExportCase == ev.op # "init" => PrintT("@@E " \o ToJson(ev))
 Laws == ev.op = "init" => (DimLaws /\ PreLaws)
 =============================================================================
